@@ -1,6 +1,10 @@
 
 val negb : bool -> bool
 
+type nat =
+| O
+| S of nat
+
 type ('a, 'b) sum =
 | Inl of 'a
 | Inr of 'b
@@ -10,6 +14,22 @@ val fst : ('a1 * 'a2) -> 'a1
 val snd : ('a1 * 'a2) -> 'a2
 
 val app : 'a1 list -> 'a1 list -> 'a1 list
+
+val add : nat -> nat -> nat
+
+type positive =
+| XI of positive
+| XO of positive
+| XH
+
+type n =
+| N0
+| Npos of positive
+
+type z =
+| Z0
+| Zpos of positive
+| Zneg of positive
 
 val eqb : bool -> bool -> bool
 
@@ -186,3 +206,5 @@ val all_bools : bool list
 val all_verifies : verify list
 
 val all_cfgs : cfg list
+
+val nondefault : cfg -> nat
